@@ -249,7 +249,7 @@ def run_shard(mod, tier, seed, shard, nshards, only_sub=None):
         n = int(sub.examples.get(tier, 0) * scale)
         if n <= 0:
             continue
-        sub_budget = budget * scale * sub.weight / total_w
+        sub_budget = budget * scale * float(os.environ.get('VERIF_TIME_SCALE', '1')) * sub.weight / total_w
         ignored = set()
         for attempt in range(3):
             t0 = time.time()
